@@ -496,6 +496,69 @@ def gen_hook_shape(sc: ast.AST) -> str:
     return "\n".join(out) + "\n"
 
 
+def gen_limit_shape(ad: ast.AST, repo_src: str) -> str:
+    """`increased_recursion_limit` (core/autodiff.py) in the same vocabulary (capture / install / body / restore), and the
+    list of ALL sites of the package that write process-global interpreter state"""
+    import os
+    fn = find_func(ad, "increased_recursion_limit")
+    body = [st for st in fn.body if not (isinstance(st, ast.Expr) and isinstance(st.value, ast.Constant))]
+    if len(body) != 2 or not isinstance(body[1], ast.Try):
+        raise TranslateError(f"increased_recursion_limit: body {[_u(x)[:50] for x in body]}")
+    cap, tr = body
+    if not (isinstance(cap, ast.Assign) and _u(cap.value) == "sys.getrecursionlimit()" and isinstance(cap.targets[0], ast.Name)):
+        raise TranslateError(f"increased_recursion_limit: {_u(cap)!r}")
+    saved = cap.targets[0].id
+
+    def cls(st):
+        u = _u(st)
+        if u == f"sys.setrecursionlimit({saved})":
+            return "restore"
+        if isinstance(st, ast.Expr) and isinstance(st.value, ast.Call) and _u(st.value.func) == "sys.setrecursionlimit":
+            return "install"
+        if isinstance(st, ast.Expr) and isinstance(st.value, ast.Yield):
+            return "solverCall"       # the body of the `with` block: returns or raises anything
+        raise TranslateError(f"increased_recursion_limit: statement {u[:70]!r}")
+    if tr.orelse:
+        raise TranslateError("increased_recursion_limit: try … else")
+    t = [cls(s) for s in tr.body]
+    hs = [((_u(h.type) if h.type is not None else "BaseException"), [cls(s) for s in h.body]) for h in tr.handlers]
+    f = [cls(s) for s in tr.finalbody]
+    lst = lambda xs: "[" + ", ".join("." + x for x in xs) + "]"
+    # every site of the package that writes interpreter-wide state
+    sites = []
+    for root, _, files in sorted(os.walk(repo_src)):
+        for fnm in sorted(files):
+            if not fnm.endswith(".py"):
+                continue
+            path = os.path.join(root, fnm)
+            tree = ast.parse(open(path).read())
+            rel = os.path.relpath(path, repo_src)
+            for top in ast.walk(tree):
+                if isinstance(top, (ast.FunctionDef, ast.AsyncFunctionDef)):
+                    for n in ast.walk(top):
+                        what = None
+                        if isinstance(n, ast.Call) and _u(n.func) in ("sys.setrecursionlimit", "np.seterr", "numpy.seterr",
+                                                                      "warnings.simplefilter", "warnings.filterwarnings",
+                                                                      "warnings.resetwarnings", "np.seterrcall"):
+                            what = _u(n.func)
+                        if isinstance(n, (ast.Assign, ast.AugAssign)):
+                            tg = n.targets[0] if isinstance(n, ast.Assign) else n.target
+                            if _u(tg) in ("warnings.showwarning", "warnings.filters", "sys.excepthook"):
+                                what = _u(tg) + " ="
+                        if what and not any(isinstance(m, (ast.FunctionDef, ast.AsyncFunctionDef)) and m is not top and n in list(ast.walk(m))
+                                            for m in ast.walk(top)):
+                            sites.append(f"{rel}:{top.name}:{what}")
+    sites = sorted(set(sites))
+    out = ["/-- `increased_recursion_limit`: the statement capturing the old limit, then try body / handlers / finally -/",
+           "def limitPreG : List HStmtG := [.capture]",
+           f"def limitTryG : List HStmtG := {lst(t)}",
+           "def limitHandlersG : List (String × List HStmtG) := [" + ", ".join(f"({json.dumps(c)}, {lst(b)})" for c, b in hs) + "]",
+           f"def limitFinallyG : List HStmtG := {lst(f)}",
+           "/-- every function of the package that writes interpreter-wide state (file:function:what) -/",
+           "def globalStateSitesG : List String := [" + ", ".join(json.dumps(x) for x in sites) + "]"]
+    return "\n".join(out) + "\n"
+
+
 if __name__ == "__main__":
     import sys
     print(gen_scipy_post(ast.parse(open(sys.argv[1]).read())))
